@@ -3,37 +3,36 @@
   evaluate a term of the fragment, the Core machine about to run its translation) both machines
   advance to related states or stop with the same result.
 -/
-import Scc.Fun2Core.SemSim11
+import Scc.Fun2Core.SemSim13
 
 namespace Scc.Fun2Core.Sem
 open Scc
 
 variable {q : Core.Prog} {p : Fun.CheckedProgram}
 
-theorem eval_sim (X : Ctx p q) : ChunkSim p q (R q) := by
+theorem eval_sim (X : Ctx p q) : ChunkSim p q (R p q) := by
   intro s S hR
   obtain ⟨stmt, ρ, out, n⟩ := S
   cases hR with
   | @eval t env k _ ρ0 c hg hc he hr hbd hag =>
     simp only at hc he hr hbd hag
-    replace hg : good t = true := hg
+    replace hg : good p t = true := hg
     cases t with
-    | var x ty chi => exact eval_direct X (t := .var x ty chi) rfl hc he hr hag
-    | lit m => exact eval_direct X (t := .lit m) rfl hc he hr hag
-    | op a o b => exact eval_direct X (t := .op a o b) (by simpa [good, pureD] using hg) hc he hr hag
-    | ctor K as ty =>
-      exact eval_direct X (t := .ctor K as ty) (by simpa [good, pureD] using hg) hc he hr hag
+    | var x ty chi => exact eval_direct X (t := .var x ty chi) rfl hg hc he hr hbd hag
+    | lit m => exact eval_direct X (t := .lit m) rfl hg hc he hr hbd hag
+    | op a o b => exact eval_direct X (t := .op a o b) rfl hg hc he hr hbd hag
+    | ctor K as ty => exact eval_direct X (t := .ctor K as ty) rfl hg hc he hr hbd hag
     | ifc srt a b t1 e1 ty => exact eval_ifc X hg hc he hr hbd hag
     | ifz srt a t1 e1 ty => exact eval_ifz X hg hc he hr hbd hag
     | print nl a nx ty => exact eval_print X hg hc he hr hbd hag
     | letIn x vt b i ty => exact eval_let X hg hc he hr hbd hag
-    | call f as ty => exact eval_call X hg hc he hr hag
+    | call f as ty => exact eval_call X hg hc he hr hbd hag
     | case sc ta cs ty => exact eval_case X hg hc he hr hbd hag
     | label a t1 ty => exact eval_label X hg hc he hr hbd hag
     | goto a u ty => exact eval_goto X hg hc he hbd hag
     | exit u ty => exact eval_exit X hg hc he hbd hag
     | paren t1 => exact eval_paren hg hc he hr hbd hag
     | new cs ty => simp [good] at hg
-    | dtor sc d ta as ty => simp [good] at hg
+    | dtor sc d ta as ty => exact eval_dtor X hg hc he hr hbd hag
 
 end Scc.Fun2Core.Sem
